@@ -94,6 +94,7 @@ type treeJob struct {
 	FailQ    bool    // the alphabet also holds the queries whose client goes away after k bytes
 	Proxy    bool    // round 6: the history is played by a client through a real martian.Proxy (proxy.go)
 	Mode     int     // Proxy: how the client uses connections (proxyModes)
+	IDs      []int   // round 8 (repeat): the id of an exchange belongs to its symbol, not to its position - a symbol played again is the same exchange again
 }
 
 // failCuts: where the client of a failing query goes away, in bytes of the would-be report (n = its size).
@@ -155,7 +156,7 @@ func (j *treeJob) sigPrefix() string {
 
 // splitFamily splits a signature of an added family into the family prefix and the rest ("" for the original ones).
 func splitFamily(sig string) (fam, base string) {
-	for _, f := range []string{"variants:", "scope:", "guard:", "long:", "failq:", "errmod:", "proxy:"} {
+	for _, f := range []string{"variants:", "scope:", "guard:", "long:", "failq:", "errmod:", "proxy:", "repeat:"} {
 		if strings.HasPrefix(sig, f) {
 			return f, strings.TrimPrefix(sig, f)
 		}
@@ -252,6 +253,35 @@ func extJobs(tier string) []treeJob {
 			jobs = append(jobs, j)
 		}
 	}
+	// repeat (round 8): the id of an exchange belongs to its symbol, so a symbol played again is the very same exchange
+	// again (a retry) and every verifier builds the very same error message again. Two jobs per tree: every history of
+	// the largest length <= 4 (thorough 5) under the cap, and the explicit patterns of repeatPatterns.
+	if os.Getenv("C13_SKIP_R8") == "" {
+		capHist, lmax := 5000.0, 4
+		if tier == "thorough" {
+			capHist, lmax = 60000, 5
+		}
+		for _, t := range scen.RepeatTrees(tier) {
+			alpha, ids := scen.AlphabetRepeat(t)
+			j := treeJob{Tree: t, Alpha: alpha, IDs: ids, Len: lmax, Family: "repeat"}
+			for j.Len > 2 && pow(j.nsyms(), j.Len) > capHist {
+				j.Len--
+			}
+			j.Cost = pow(j.nsyms(), j.Len)
+			jobs = append(jobs, j)
+			e := treeJob{Tree: t, Alpha: alpha, IDs: ids, Family: "repeat"}
+			e.Explicit = repeatPatterns(&e)
+			steps := 0
+			for _, seq := range e.Explicit {
+				steps += len(seq)
+				if len(seq) > e.Len {
+					e.Len = len(seq)
+				}
+			}
+			e.Cost = float64(steps) / 4
+			jobs = append(jobs, e)
+		}
+	}
 	// long: runs of one plain message - N times, query, reset, N mod 3 times, (final query) - for every N up to a
 	// bound beyond the growth steps of a slice (1, 2, 4, 8, 16 ...; thorough: ... 128)
 	nmax := 20
@@ -286,6 +316,36 @@ func extJobs(tier string) []treeJob {
 		jobs = append(jobs, j)
 	}
 	return jobs
+}
+
+// repeatPatterns lists the explicit histories of the repeat family (each is followed by the final query): for every
+// symbol m the same exchange 2 and 3 times in a row, with a query in between, before and after a reset, after two
+// resets; for every plain m and every other symbol p (an exchange that meets the expectations, one that misses them
+// under another id or in another way, an API request with the same URL) the same exchange again after p, p before and
+// between runs, before and after a reset.
+func repeatPatterns(j *treeJob) [][]int {
+	q, r := len(j.Alpha), len(j.Alpha)+1
+	var out [][]int
+	for m := range j.Alpha {
+		out = append(out,
+			[]int{m, m, q, m, q, r, q, m, m, q, m},
+			[]int{m, m, m, r, m, m, m},
+			[]int{m, r, m, m, r, r, m, m},
+		)
+		if j.Alpha[m].API {
+			continue // an API request is never counted, however often it is repeated: the runs above
+		}
+		for p := range j.Alpha {
+			if p == m {
+				continue
+			}
+			out = append(out,
+				[]int{m, p, m, q, m, q, r, m, p, m, m},
+				[]int{p, m, m, r, p, m, p, m},
+			)
+		}
+	}
+	return out
 }
 
 // proxyCost: cost of one history through the proxy in units of one direct history (measured, see AUDIT.md).
@@ -328,7 +388,7 @@ func seqJobs(tier string) []treeJob {
 		// self-validation aid: the check as it was before round 6
 		var keep []treeJob
 		for _, j := range jobs {
-			if j.Family != "errmod" && j.Family != "proxy" {
+			if j.Family != "errmod" && j.Family != "proxy" && j.Family != "repeat" {
 				keep = append(keep, j)
 			}
 		}
@@ -374,6 +434,8 @@ func assign(jobs []treeJob, nshards int) [][]treeJob {
 
 func symName(j *treeJob, s int) string {
 	switch {
+	case s < len(j.Alpha) && j.IDs != nil:
+		return fmt.Sprintf("%s id=%d", j.Alpha[s], j.IDs[s])
 	case s < len(j.Alpha):
 		return j.Alpha[s].String()
 	case s == len(j.Alpha):
@@ -476,7 +538,11 @@ func runHistory(out *shardOut, j *treeJob, js []byte, pool *scen.Pool, seq []int
 		case s < len(j.Alpha):
 			m := j.Alpha[s]
 			pool.Tree = j.Tree
-			x, err := pool.Exchange(m, i+1, i)
+			id := i + 1
+			if j.IDs != nil {
+				id = j.IDs[s] // the same symbol again is the same exchange again
+			}
+			x, err := pool.Exchange(m, id, i)
 			if err == nil {
 				// a modifier error is expected exactly where the model says that an err modifier fails (round 6); the
 				// proxy goes on to the response modifiers after a request modifier error, so does the harness
@@ -504,7 +570,7 @@ func runHistory(out *shardOut, j *treeJob, js []byte, pool *scen.Pool, seq []int
 				})
 				return i
 			}
-			md.Traffic(m, i+1)
+			md.Traffic(m, id)
 		case s == len(j.Alpha):
 			if !query(i) {
 				return i
@@ -1573,7 +1639,7 @@ func main() {
 	}
 	maxN, lenFor := seqBounds(tier)
 	var extTrees int64
-	for _, f := range []string{"variants", "scope", "filterkind", "guard", "long", "failq", "errmod", "proxy"} {
+	for _, f := range []string{"variants", "scope", "filterkind", "guard", "long", "failq", "errmod", "proxy", "repeat"} {
 		extTrees += rep.Counter("fam_" + f + "_trees")
 	}
 	rep.Coverage["states"] = rep.Counter("seq_states") + rep.Counter("conc_distinct_histories")
@@ -1589,22 +1655,22 @@ func main() {
 	rep.Coverage["race_pass"] = map[string]interface{}{"scenarios": rr.Scenarios, "iterations": rr.Iterations, "reports": len(rr.Reports), "signatures": raceSigs, "seconds": rr.Seconds, "error": rr.Err}
 	rep.Coverage["exhaustive"] = rep.Incomplete == ""
 	fams := map[string]interface{}{}
-	for _, f := range []string{"variants", "scope", "filterkind", "guard", "long", "failq", "errmod", "proxy"} {
+	for _, f := range []string{"variants", "scope", "filterkind", "guard", "long", "failq", "errmod", "proxy", "repeat"} {
 		fams[f] = map[string]int64{"trees": rep.Counter("fam_" + f + "_trees"), "histories": rep.Counter("fam_" + f + "_histories"), "cpu_ms": rep.Counter("cpu_ms_fam_" + f),
-			"trees_with_all_histories_of_length_2": rep.Counter("fam_" + f + "_trees_len2"), "trees_with_all_histories_of_length_3": rep.Counter("fam_" + f + "_trees_len3"), "trees_with_all_histories_of_length_4": rep.Counter("fam_" + f + "_trees_len4")}
+			"trees_with_all_histories_of_length_2": rep.Counter("fam_" + f + "_trees_len2"), "trees_with_all_histories_of_length_3": rep.Counter("fam_" + f + "_trees_len3"), "trees_with_all_histories_of_length_4": rep.Counter("fam_" + f + "_trees_len4"), "trees_with_all_histories_of_length_5": rep.Counter("fam_" + f + "_trees_len5")}
 	}
 	rep.Coverage["added_families"] = fams
 	rep.Coverage["wrong_method_calls"] = rep.Counter("seq_wrong_method_calls")
 	rep.Coverage["failing_queries"] = rep.Counter("seq_failing_queries")
 	rep.Coverage["expected_modifier_errors"] = rep.Counter("seq_expected_modifier_errors")
 	rep.Coverage["proxy_family"] = map[string]interface{}{"histories_each_one_scheduler_execution": rep.Counter("fam_proxy_histories"), "scheduler_points": rep.Counter("proxy_points"), "connection_modes": proxyModes}
-	rep.Coverage["rule"] = "sequential: every numbered tree with <= n nodes x every sequence of exactly L symbols over the tree's alphabet (all routing x met/unmet decision paths as plain messages; API-marked messages per routing path that reaches a verifier, with all expectations unmet, and also all met when a pingback verifier is present; GET /verify; POST /verify/reset), checked step by step so every shorter history is covered as a prefix, plus one final query; extensions of a failing prefix are skipped. A history is non-trivial when some query in it (explicit or final) has an expected answer different from the fresh tree's. Added families (same enumeration, judged by the concrete reference model of scen/ext.go; counts in added_families): variants = every verifier kind in every listed parameterisation (header: value / presence only / lower-case name; query: value / presence only; url: host / scheme+host+path; pingback: path / scheme+host+path) alone, in a group and in either branch of a filter x the original alphabet plus every shape (wrong value, two values of which the second is wanted, wanted on one side only, empty value, other scheme, other path) x {rest unmet, rest met} x {plain, API}; scope = every listed tree with <= 3 nodes in which some node carries a scope (absent, request, response, both, empty list; every combination the kinds accept) and aggregating groups; filterkind = header / cookie / url-regex / url / method filters with verifiers in the true, else and both branches, the alphabet extended by responses that take the other branch than their request (header and cookie filters decide that from the response); guard = the alphabet extended by POST /verify, GET and PUT /verify/reset (405 + Allow, nothing changes); long = for every plain message m and every N up to the bound: m^N, query, reset, m^(N mod 3), query; failq = trees with one or two verifiers, the alphabet extended by GET /verify from a client that goes away after k bytes of the report (k = 0, 1, 25, half, all but the last byte; a judged complete query first measures the report), all histories of length 4: every later complete query must answer exactly the model's report as one valid JSON document; errmod (round 6) = groups (plain and aggregating, nested, in filter branches) that also hold an ordinary modifier which returns an error for the messages that ask for it (header filter on X-Err around a header.Copy that cannot be carried out; scopes: both sides, request, response), verifiers before and after it, the alphabet extended by every subset of the sides on which the message makes that modifier fail: the verifiers behind a failing modifier are evaluated only in an aggregating group (documented at fifo.Group.SetAggregateErrors), the response modifiers run although the request modifiers returned an error (as in the proxy), a modifier error is accepted exactly where the model expects one; proxy (round 6) = the history is played by a client over a simulated TCP connection through a real martian.Proxy wired like cmd/proxy (API forwarder behind a servemux filter, httpspec stack, configurable modifier, /configure /verify /verify/reset on the API mux; upstream = synchronous round tripper), one scheduler execution per history on the default schedule, alphabet = every plain message, each also with the upstream round trip failing (502 made up by the proxy), a CONNECT whose target cannot be dialled (502 made up by the proxy), a real request to the proxy's own API per routing path (DELETE /configure, refused with 405), GET /verify and POST /verify/reset as real API requests (never counted themselves), x three ways of using connections (one keep-alive connection for everything; queries and resets on a second connection; a new connection per request). concurrent: every scenario in conc_scenarios_detail, each either over all interleavings of the rewritten lock operations (preemption_bound 0) or over all schedules up to the stated preemption bound."
+	rep.Coverage["rule"] = "sequential: every numbered tree with <= n nodes x every sequence of exactly L symbols over the tree's alphabet (all routing x met/unmet decision paths as plain messages; API-marked messages per routing path that reaches a verifier, with all expectations unmet, and also all met when a pingback verifier is present; GET /verify; POST /verify/reset), checked step by step so every shorter history is covered as a prefix, plus one final query; extensions of a failing prefix are skipped. A history is non-trivial when some query in it (explicit or final) has an expected answer different from the fresh tree's. Added families (same enumeration, judged by the concrete reference model of scen/ext.go; counts in added_families): variants = every verifier kind in every listed parameterisation (header: value / presence only / lower-case name; query: value / presence only; url: host / scheme+host+path; pingback: path / scheme+host+path) alone, in a group and in either branch of a filter x the original alphabet plus every shape (wrong value, two values of which the second is wanted, wanted on one side only, empty value, other scheme, other path) x {rest unmet, rest met} x {plain, API}; scope = every listed tree with <= 3 nodes in which some node carries a scope (absent, request, response, both, empty list; every combination the kinds accept) and aggregating groups; filterkind = header / cookie / url-regex / url / method filters with verifiers in the true, else and both branches, the alphabet extended by responses that take the other branch than their request (header and cookie filters decide that from the response); guard = the alphabet extended by POST /verify, GET and PUT /verify/reset (405 + Allow, nothing changes); long = for every plain message m and every N up to the bound: m^N, query, reset, m^(N mod 3), query; failq = trees with one or two verifiers, the alphabet extended by GET /verify from a client that goes away after k bytes of the report (k = 0, 1, 25, half, all but the last byte; a judged complete query first measures the report), all histories of length 4: every later complete query must answer exactly the model's report as one valid JSON document; errmod (round 6) = groups (plain and aggregating, nested, in filter branches) that also hold an ordinary modifier which returns an error for the messages that ask for it (header filter on X-Err around a header.Copy that cannot be carried out; scopes: both sides, request, response), verifiers before and after it, the alphabet extended by every subset of the sides on which the message makes that modifier fail: the verifiers behind a failing modifier are evaluated only in an aggregating group (documented at fifo.Group.SetAggregateErrors), the response modifiers run although the request modifiers returned an error (as in the proxy), a modifier error is accepted exactly where the model expects one; proxy (round 6) = the history is played by a client over a simulated TCP connection through a real martian.Proxy wired like cmd/proxy (API forwarder behind a servemux filter, httpspec stack, configurable modifier, /configure /verify /verify/reset on the API mux; upstream = synchronous round tripper), one scheduler execution per history on the default schedule, alphabet = every plain message, each also with the upstream round trip failing (502 made up by the proxy), a CONNECT whose target cannot be dialled (502 made up by the proxy), a real request to the proxy's own API per routing path (DELETE /configure, refused with 405), GET /verify and POST /verify/reset as real API requests (never counted themselves), x three ways of using connections (one keep-alive connection for everything; queries and resets on a second connection; a new connection per request); repeat (round 8) = the id of an exchange belongs to its symbol instead of its position, so a symbol played again is the very same exchange again (same URL, method, headers, status - a retry) and a verifier that misses its expectation builds the very same error message again: every verifier kind in every parameterisation at the top level, in a group, in a nested group, in the true / else / both branches of a filter, pairs under a group and in the two branches of a filter, filters of the other kinds; alphabet = the variants alphabet (all shapes) plus a twin (same message, other id) of every plain failing message; every history of the largest length <= 4 (thorough 5) under the per-tree cap plus, for every symbol m and every other symbol p, the explicit histories m m q m q r q m m q m / m m m r m m m / m r m m r r m m / m p m q m q r m p m m / p m m r p m p m, each with a final query; the model counts evaluations, not distinct messages. concurrent: every scenario in conc_scenarios_detail, each either over all interleavings of the rewritten lock operations (preemption_bound 0) or over all schedules up to the stated preemption bound."
 	rep.Coverage["bounds"] = fmt.Sprintf("sequential: all %d trees with <= %d nodes x all histories of length <= %d over the per-tree alphabet; added families: %d trees, all histories of the largest length <= %d that stays under the per-tree cap (see added_families; long: N <= %d; proxy: length 3, thorough 4 for alphabets of <= 10 symbols); concurrent: %d scenarios explored over all interleavings of their lock operations (pairs of threads and small triples: traffic/query/reset) + %d scenarios (2-3 traffic threads x 1-2 exchanges, query thread, optional reset thread) explored over all schedules with at most 2 (quick) / 3 (thorough) preemptions; race pass: %d scenarios, %d free-running runs under -race", len(jobs)-int(extTrees), maxN, lenFor(maxN), extTrees, extLen(tier), map[bool]int{false: 20, true: 132}[tier == "thorough"], rep.Counter("conc_scenarios_all_interleavings"), rep.Counter("conc_scenarios_preemption_bounded"), rr.Scenarios, rr.Iterations)
 	rep.Assumptions = []string{
 		"traffic is applied as the proxy applies it (martian context linked to the request, ModifyRequest then ModifyResponse on the configurable martianhttp.Modifier); no sockets are involved; API requests are marked through the context exactly like api.Forwarder does",
 		"original families: one parameterisation per verifier kind (status 200, header X-Vh: ok, method GET, url host, query qv=ok, failure message per node, pingback path), the header expectation toggled on request and response together, filters are querystring.Filter; the added families vary the parameterisation, the way an expectation is missed, the scope option and the filter kind on small trees (<= 3 nodes), not in combination with each other",
 		"added families: a verifier or container whose scope excludes a side takes no part on that side (a scoped-out pingback verifier yields no 'never occurred' error); a url verifier records one error per request however many parts differ; a header present with the wanted value among several values, or present at all for a blank expectation, meets the expectation; a wrong-method call to either handler is neither a query nor a reset",
-		"error messages are attributed to verifier kinds by their documented formats and to messages by a unique id= query parameter; order of errors in the answer is not constrained",
+		"error messages are attributed to verifier kinds by their documented formats and to messages by a unique id= query parameter (repeat family: one id per symbol, so equal symbols give equal messages and the answer is compared as a multiset); order of errors in the answer is not constrained",
 		"sequential histories recycle request objects (hence martian contexts) between histories; every history runs on a freshly parsed configuration (the first history of each tree through the /configure handler, the others through parse.FromJSON + SetRequestModifier/SetResponseModifier)",
 		"schedule exploration interleaves at lock operations only (gosim) and has no partial-order reduction: the 3-4 thread scenarios are complete only up to a preemption bound (every added lock or API-exemption check in martian multiplies the interleavings, the scenario sizes are chosen for the repaired tree); unsynchronised accesses are the business of the auxiliary -race pass, which is a sampling of real schedules, not exhaustive",
 		"errmod family: the failing modifier is a header.Filter on X-Err: 1 around header.Copy from a header that does not exist into Content-Length; fifo.Group stops at the first failing child unless aggregateErrors is set (its documentation), a filter returns what the branch it ran returns; nothing is demanded about the error value itself",
